@@ -256,3 +256,55 @@ def run(chk):
                           "established on every path before: a rejected call is no longer free of side effects" % (rx.get("name"), rx.get("name")),
                    key="labelbeforecommit|%s" % fn.name.replace("asmjit::", ""))
     chk.floor(R3 + ":sites", n3, 2)
+
+
+def run_code_guard(chk):
+    """C14.e: an emitter interface function touches the CodeHolder only after it has tested that one is attached"""
+    from .must import Must
+    R = "R-CODE-GUARD"
+    chk.rule(R, "BaseAssembler / BaseBuilder interface functions: every use of the attached CodeHolder (`_code->...`, CodeWriter::ensure_space, "
+                "label_entry_of, new_fixup ...) is reached only on the edge where `_code` was tested non-null (or the kAttached flag was tested): "
+                "calling an emitter that is not attached returns kNotInitialized instead of dereferencing null")
+    n = 0
+    for unit, cname in (("asmjit/core/assembler.cpp", "BaseAssembler"), ("asmjit/core/builder.cpp", "BaseBuilder")):
+        f = chk.facts(unit, funcs=r"asmjit::%s::[A-Za-z_0-9]+$" % cname, records=r"^asmjit::(%s|BaseEmitter)$" % cname)
+        rec = f["records"].get("asmjit::" + cname)
+        chk.need(rec is not None, "class %s not found" % cname)
+        ov = {m["name"] for m in rec["methods"] if m["virtual"] and any("BaseEmitter::" in o for o in m["overrides"])}
+        for fn in cfg.load_functions(f):
+            short = fn.name.split("::")[-1]
+            if short not in ov or short in SKIP or short.startswith("~"):
+                continue
+
+            def edge_fx(b, si, atom, holds, fn=fn):
+                x = fn.e(atom)
+                t = fn.text(atom).replace("this->", "").strip()
+                if x and x["k"] in ("ref", "member", "cast") and t == "_code" and holds:
+                    return [("attached",)]
+                if x and x["k"] == "unop" and x["op"] == "!" and fn.text(x["sub"]).replace("this->", "").strip() == "_code" and not holds:
+                    return [("attached",)]
+                if x and x["k"] == "mcall" and x.get("cn") == "has_emitter_flag" and "kAttached" in t and holds:
+                    return [("attached",)]
+                if x and x["k"] == "binop" and x["op"] in ("==", "!=") and "_code" in t and ("nullptr" in t or "NULL" in t):
+                    if (x["op"] == "!=") == holds:
+                        return [("attached",)]
+                return ()
+            uses = []
+            for i, x in fn.ex.items():
+                if x["k"] == "member" and x.get("arrow") is not False:
+                    b = fn.e(fn.strip(x["base"])) if x.get("base") else None
+                    if b and b["k"] == "member" and b.get("field") == "_code" and fn.e(fn.strip(b["base"])) and fn.e(fn.strip(b["base"]))["k"] == "this":
+                        uses.append(i)
+                elif x["k"] == "mcall" and x.get("cn") in ("ensure_space",):
+                    uses.append(i)
+            if not uses:
+                continue
+            m = Must(fn, None, edge_fx)
+            bad = [i for i in uses if ("attached",) not in (m.before(i) or frozenset())]
+            # uses in the same block as the test's own evaluation (e.g. `_code && _code->x`) are covered by the edge facts above
+            n += 1
+            chk.ob(R, "%s::%s" % (cname, short), not bad, loc=fn.loc(bad[0]) if bad else "%s:%d" % (unit, fn.line),
+                   detail="%s::%s uses the CodeHolder at line %s without having tested `_code` on that path (its siblings return kNotInitialized)" % (
+                       cname, short, ", ".join(sorted({str(fn.line_of(i)) for i in bad}))[:60]),
+                   key="codeguard|%s::%s" % (cname, short))
+    chk.floor(R + ":functions", n, 8)
